@@ -2,7 +2,8 @@ from typing import List, Any
 
 from pydbml.classes import Index, Expression, Column
 from pydbml.renderer.dbml.default.renderer import DefaultDBMLRenderer
-from pydbml.renderer.dbml.default.utils import comment_to_dbml, note_option_to_dbml, quote_name
+from pydbml.renderer.dbml.default.utils import comment_to_dbml, note_option_to_dbml, quote_name, \
+    prepare_text_for_dbml
 
 
 def render_subjects(source_subjects: List[Any]) -> str:
@@ -27,7 +28,7 @@ def render_subjects(source_subjects: List[Any]) -> str:
 def render_options(model: Index) -> str:
     options = []
     if model.name:
-        options.append(f"name: '{model.name}'")
+        options.append(f"name: '{prepare_text_for_dbml(model.name)}'")
     if model.pk:
         options.append('pk')
     if model.unique:
